@@ -1070,6 +1070,11 @@ func (e *Evaluator) evalRules(rules []*Rule) error {
 		match := true
 		if rule.Pattern != nil {
 			cell, err := e.evalExpr(rule.Pattern)
+			if err == errNext {
+				// next executed while the pattern is evaluated (from a match
+				// block or a called function) abandons the element like a body does
+				return nil
+			}
 			if err != nil {
 				return err
 			}
@@ -1174,6 +1179,10 @@ func EvalProgram(progSrc string, files []InputFile, rootSelectors []string, stdo
 			if err == errExit {
 				return &ev, nil
 			}
+			if err == errNext {
+				// outside the pattern rules next just leaves the rule
+				continue
+			}
 			return &ev, err
 		}
 	}
@@ -1216,6 +1225,10 @@ func EvalProgram(progSrc string, files []InputFile, rootSelectors []string, stdo
 						if err == errExit {
 							return &ev, nil
 						}
+						if err == errNext {
+							// outside the pattern rules next just leaves the rule
+							continue
+						}
 						return &ev, err
 					}
 				}
@@ -1237,6 +1250,10 @@ func EvalProgram(progSrc string, files []InputFile, rootSelectors []string, stdo
 						if err == errExit {
 							return &ev, nil
 						}
+						if err == errNext {
+							// outside the pattern rules next just leaves the rule
+							continue
+						}
 						return &ev, err
 					}
 				}
@@ -1251,6 +1268,10 @@ func EvalProgram(progSrc string, files []InputFile, rootSelectors []string, stdo
 		if err := ev.evalStatement(rule.Body); err != nil {
 			if err == errExit {
 				return &ev, nil
+			}
+			if err == errNext {
+				// outside the pattern rules next just leaves the rule
+				continue
 			}
 			return &ev, err
 		}
